@@ -387,6 +387,15 @@ namespace smt
         trail_lim.pop_back();
         decisions.pop_back();
 
+        // a literal which has been enqueued outside of 'propagate' (e.g., by a theory recording a clause) might still be waiting in the propagation queue: it is not assigned anymore..
+        for (size_t i = prop_q.size(); i > 0; --i)
+        {
+            const lit p = prop_q.front();
+            prop_q.pop();
+            if (value(p) != Undefined)
+                prop_q.push(p);
+        }
+
         for (const auto &th : theories)
             th->pop();
     }
